@@ -166,6 +166,40 @@ def int_first_unchanged(db):
     return True
 
 
+def rule_r4(chk, db, methods):
+    """ETag of a read = MD5 of the object's current content: get_md5_sum hashes the file at the object path on every path"""
+    g = db.body("s3s_fs::fs::FileSystem::get_md5_sum")
+    inner = db.innermost_user_body(g) if g else None
+    if inner is None:
+        raise AnchorMissing("get_md5_sum not found")
+    oks = [w for w in flow.return_writes(inner) if w["kind"] == "Ok"]
+    chk.floor("R4", len(oks), 1, "Ok returns of get_md5_sum")
+    for w in oks:
+        sl = flow.backward(inner, w["rv"]["ops"][0], at=w["bi"])
+        names = {short(callee_def(t)) for _, t, _ in sl.calls}
+        hashed = "finalize" in names and "update" in names
+        from_file = any(short(callee_def(t)) == "read" for _, t, _ in sl.calls) and any(short(callee_def(t)) == "open" for _, t, _ in sl.calls) and \
+            any(short(callee_def(t)) == "get_object_path" for _, t, _ in sl.calls)
+        chk.verdict(hashed and from_file, "R4", "etag-from-content#%d" % w["bi"], inner.loc(w["bi"]),
+                    "get_md5_sum can return a digest that is not the MD5 of the file currently stored at the object path (calls in slice: %s): "
+                    "after an overwrite by another operation a stale ETag would be reported" % sorted(names)[:8])
+    # every backend method that reports an e_tag for a stored object takes it from get_md5_sum or from hashing the bytes it just wrote
+    for name, b in sorted(methods.items()):
+        for bi, si, st in b.stmts():
+            rv = st["rv"]
+            if rv["k"] == "agg" and rv.get("agg") == "adt" and "e_tag" in rv.get("fields", []) and short(rv.get("adt", "")).endswith("Output") or \
+                    (rv["k"] == "agg" and rv.get("agg") == "adt" and short(rv.get("adt", "")) in ("CopyObjectResult", "CopyPartResult") and "e_tag" in rv.get("fields", [])):
+                m = dict(zip(rv["fields"], rv["ops"]))
+                if flow.is_none_literal(b, m["e_tag"]):
+                    continue
+                sl = flow.backward(b, m["e_tag"], at=bi)
+                nm = {short(callee_def(t)) for _, t, _ in sl.calls}
+                if nm <= {"default"}:
+                    continue   # `..Default::default()`: no ETag reported
+                ok = "get_md5_sum" in nm or ("finalize" in nm and ("hex" in nm))
+                chk.verdict(ok, "R4", "%s.e_tag" % name, b.loc(bi), "%s reports an ETag that is neither get_md5_sum of the object nor the MD5 of the bytes just written (%s)" % (name, sorted(nm)[:6]), nontrivial=False)
+
+
 def run(chk, db, tier):
     roles = Roles(db)
     methods = s3_methods(db, roles)
@@ -176,6 +210,8 @@ def run(chk, db, tier):
     chk.guard("R1", rule_r1, db, roles, methods)
     chk.guard("R2", rule_r2, db, methods)
     chk.guard("R3", rule_r3, db, methods)
+    chk.rule("R4", "ETag = MD5 of current content: get_md5_sum hashes the file at the object path on every path; reported ETags come from it or from the bytes just written")
+    chk.guard("R4", rule_r4, db, methods)
 
 
 META = {
